@@ -4,7 +4,8 @@
 #   tools/seed_verify.sh <NAME> <PROP[,PROP2...]> <demo file> <package dir> <go test -run regex> [tier]
 set -u
 NAME=$1; PROPS=$2; DEMO=$3; PKG=$4; RUN=$5; TIER=${6:-quick}
-SRC=/tmp/seeded/$NAME
+SRC=${SEEDROOT:-/tmp/seeded}/$NAME
+DEST=$NAME${SEEDSUFFIX:-}
 export GOFLAGS=-mod=mod GOPROXY=off GOSUMDB=off GOTOOLCHAIN=local
 VT=/tmp/vt/$NAME
 rm -rf $VT; git -C /repo worktree prune; git -C /repo worktree add -q --detach $VT HEAD || exit 9
@@ -29,23 +30,23 @@ if [ "$CLEAN" != 0 ] || [ "$BUILD" != 0 ] || [ "$BASE" != 0 ] || [ "$SEEDED" = 0
 echo "== run checks against the seeded change (scratch worktree, /repo untouched)"
 rm -f $VT/$PKG/zz_seed_demo_test.go
 for P in ${PROPS//,/ }; do
-  VERIF_REPO=$VT ./check $P $TIER > /tmp/seeded/$NAME.check.$P.log 2>&1; RC=$?
-  echo "check $P $TIER -> exit $RC: $(grep -m1 -E 'violated|WATCHDOG|DATA RACE|fails:' /tmp/seeded/$NAME.check.$P.log | cut -c1-260)"
+  VERIF_REPO=$VT ./check $P $TIER > /tmp/seeded/$DEST.check.$P.log 2>&1; RC=$?
+  echo "check $P $TIER -> exit $RC: $(grep -m1 -E 'violated|WATCHDOG|DATA RACE|fails:' /tmp/seeded/$DEST.check.$P.log | cut -c1-260)"
 done
 git -C /repo worktree remove --force $VT
 rm -rf /verif/work/alt-*
 # keep the confirmed seed
-D=/verif/seeded/$NAME; mkdir -p $D
+D=/verif/seeded/$DEST; mkdir -p $D
 cp $SRC/patch.diff $D/; cp $SRC/$DEMO $D/; [ -f $SRC/NOTES.md ] && cp $SRC/NOTES.md $D/
 python3 - <<PY
 import json,re,glob
 res={}
-for f in glob.glob('/tmp/seeded/$NAME.check.*.log'):
+for f in glob.glob('/tmp/seeded/$DEST.check.*.log'):
     p=f.split('.')[-2]
     t=open(f,errors='replace').read()
     m=re.search(r'(violated: .*|WATCHDOG .*|WARNING: DATA RACE|fails: .*)',t)
     res[p]={"detected": 'VIOLATION property=' in t, "first_report": (m.group(1)[:300] if m else "")}
-meta={"name":"$NAME","breaks_properties":"$PROPS".split(','),"origin":"independent sub-agent given only the property text and a scratch worktree",
+meta={"name":"$DEST","breaks_properties":"$PROPS".split(','),"origin":"independent sub-agent given only the property text and a scratch worktree",
  "demo":{"file":"$DEMO","copy_into_package":"$PKG","run":"go test -vet=off -count=1 -run '$RUN' ./$PKG"},
  "confirmed":{"demo_passes_on_unmodified_tree":True,"builds":True,"baseline_tests_pass":True,"demo_fails_with_change":True},
  "needs_to_manifest":"see NOTES.md","checks_run":{"tier":"$TIER","results":res}}
